@@ -15,11 +15,11 @@ CHECKS = {
              "Exhaustive over one representative token per token/declaration relation class (incl. all bundles of "
              "length 2-3 over toggle/option/multi/undeclared letters) for 25 declarations up to vector length 1 "
              "(quick) / 2 (thorough, 8 declarations), seeded random with the token of interest at random positions "
-             "beyond that. Every relation class must be hit or the run is inconclusive.",
+             "beyond that. Every relation class must be hit or the run is inconclusive. A concurrent phase (harness/mtindep.cpp) repeats a fixed job list from 2-16 threads on thread-private objects: results must equal the serial ones and ThreadSanitizer must stay silent (hidden shared state).",
         design_ref="DESIGN.md section 4, C01",
         note="Trusts the Python model's reading of the property and the driver's rendering of the arguments object; "
              "bounded vector length; declarations from a fixed family plus random ones.",
-        technique="reference-model runtime monitor (accounting of every token) under ASan/UBSan",
+        technique="reference-model runtime monitor (accounting of every token) under ASan/UBSan + ThreadSanitizer on concurrent independent use",
     ),
     "C02": dict(
         category="exploration",
@@ -27,11 +27,11 @@ CHECKS = {
              "blanks, '=', leading dashes, line breaks, bytes >= 0x80, 4 KiB) into argument vectors choosing long/"
              "short/'='/' ' forms, bundling, permutation and `--` placement; the parsed result must equal the "
              "assignment byte for byte, including provided flags and typed access on decimal texts. The oracle is "
-             "the assignment itself, no parser model. Plus the exhaustive value-pool x 4-spellings product.",
+             "the assignment itself, no parser model. Plus the exhaustive value-pool x 4-spellings product. A concurrent phase (harness/mtindep.cpp) repeats a fixed job list from 2-16 threads on thread-private objects: results must equal the serial ones and ThreadSanitizer must stay silent (hidden shared state).",
         design_ref="DESIGN.md section 4, C02",
         note="Sampled renderings (20k quick / 500k thorough); declarations without defaults and env so that only the "
              "spelling is under test; toggle names starting with 'no-' are excluded (D18).",
-        technique="round-trip (render then parse) runtime monitoring under ASan/UBSan",
+        technique="round-trip (render then parse) runtime monitoring under ASan/UBSan + ThreadSanitizer on concurrent independent use",
     ),
     "C03": dict(
         category="exploration",
@@ -39,11 +39,11 @@ CHECKS = {
              "variants} x {optional, required} x 3 kinds, crossed with an environment content pool of option-like "
              "strings, '=', ';', blanks, non-ASCII, 4 KiB and the 30 toggle words; value, provided flag and "
              "accept/reject judged against the reference model in both directions. Thorough adds random env strings "
-             "and several options sharing one variable.",
+             "and several options sharing one variable. A concurrent phase (harness/mtindep.cpp) repeats a fixed job list from 2-16 threads on thread-private objects: results must equal the serial ones and ThreadSanitizer must stay silent (hidden shared state).",
         design_ref="DESIGN.md section 4, C03",
         note="Environment is set by the driver process itself with setenv (no NUL, no '=' in names). A trailing ';' "
              "in a multi-option value may or may not yield a trailing empty element (both accepted).",
-        technique="reference-model runtime monitor over an exhaustive source matrix under ASan/UBSan",
+        technique="reference-model runtime monitor over an exhaustive source matrix under ASan/UBSan + ThreadSanitizer on concurrent independent use",
     ),
     "C04": dict(
         category="exploration",
@@ -52,11 +52,11 @@ CHECKS = {
              "parse: enumerated malformed tokens at every position, tokens of up to 131071 bytes (bundles, names, "
              "values, dash runs), one-defect vectors for each of the 15 documented rejection conditions, random byte "
              "strings over a dash-heavy alphabet, hostile environments. Every rejection condition must be observed. "
-             "Thorough adds clang ASan+UBSan, a libFuzzer campaign and a valgrind memcheck sample.",
+             "Thorough adds clang ASan+UBSan, a libFuzzer campaign and a valgrind memcheck sample. A concurrent phase (harness/mtindep.cpp) repeats a fixed job list from 2-16 threads on thread-private objects: results must equal the serial ones and ThreadSanitizer must stay silent (hidden shared state).",
         design_ref="DESIGN.md section 4, C04",
         note="Sampled input space; hangs are decided on CPU time (re-run once before reporting); a clean sanitizer "
              "run is not memory safety.",
-        technique="reference-model differential monitoring + sanitizers + coverage-guided fuzzing",
+        technique="reference-model differential monitoring + sanitizers + coverage-guided fuzzing + ThreadSanitizer on concurrent independent use",
     ),
     "C05": dict(
         category="exploration", engine="loggen",
@@ -69,10 +69,10 @@ CHECKS = {
              "buffer; each program is compiled for all 6 compile-time minima and loops over ALL "
              "threshold vectors; between a statement's markers the events must be exactly nothing or one formatter "
              "call then one sink call per sequence member in order with the statement's severity, tag and "
-             "concatenated message. ASan/UBSan watch the record/buffer ownership along the << chain.",
+             "concatenated message. ASan/UBSan watch the record/buffer ownership along the << chain. A concurrent phase (harness/mtindep.cpp) repeats a fixed job list from 2-16 threads on thread-private objects: results must equal the serial ones and ThreadSanitizer must stay silent (hidden shared state).",
         design_ref="DESIGN.md section 4, C05",
         note="Programs are sampled (2 quick / 24 thorough); single-threaded, so 'program order' is the event order.",
-        technique="trace monitor over generated programs: event log vs expected event list, under ASan/UBSan",
+        technique="trace monitor over generated programs: event log vs expected event list, under ASan/UBSan + ThreadSanitizer on concurrent independent use",
     ),
     "C06": dict(
         category="fault_enumeration", engine="fvmodel",
@@ -82,12 +82,12 @@ CHECKS = {
              "capacity, fixed capacity, guard failures raise and leave the container unchanged, only caller-made "
              "elements visible; ASan+UBSan+LSan+_GLIBCXX_ASSERTIONS watch the same executions. Exhaustive operation "
              "sequences to depth 3 for capacities 0-3 (deeper for small capacities / thorough), random long ones; for "
-             "the last operation of each exhaustive sequence EVERY element copy/move position is made to throw in turn.",
+             "the last operation of each exhaustive sequence EVERY element copy/move position is made to throw in turn. A concurrent phase (harness/mtindep.cpp) repeats a fixed job list from 2-16 threads on thread-private objects: results must equal the serial ones and ThreadSanitizer must stay silent (hidden shared state).",
         design_ref="DESIGN.md section 4, C06",
         note="front()/back()/operator[] outside [0,size) are caller preconditions and not exercised; after an injected "
              "element throw only bounds, size<=capacity, no leak and no double destruction are demanded. A clean "
              "sanitizer run is not memory safety.",
-        technique="invariant monitor with instrumented element types + fault enumeration under ASan/UBSan/LSan",
+        technique="invariant monitor with instrumented element types + fault enumeration under ASan/UBSan/LSan + ThreadSanitizer on concurrent independent use",
     ),
     "C07": dict(
         category="exploration", engine="fvmodel",
@@ -95,12 +95,12 @@ CHECKS = {
              "containers of the harness are read through size/[]/at/begin-end/cbegin-cend/rbegin-rend/crbegin-crend/"
              "data/front/back and compared with a std::vector<int> of unique element ids bounded by the capacity; "
              "copies stay independent because both containers keep being operated on and compared; assignments must "
-             "return the target. A compile probe reports insert(const T&) not compiling.",
+             "return the target. A compile probe reports insert(const T&) not compiling. A concurrent phase (harness/mtindep.cpp) repeats a fixed job list from 2-16 threads on thread-private objects: results must equal the serial ones and ThreadSanitizer must stay silent (hidden shared state).",
         design_ref="DESIGN.md section 4, C07",
         note="Capacity after an assignment and the contents of a moved-from container are adopted from the "
              "observation (the property leaves them open); interior range inserts are compared only for fit, not for "
              "overwrite-vs-shift. A sanitizer crash makes the C07 run inconclusive (it is C06's verdict).",
-        technique="reference-model (bounded std::vector) runtime monitor, exhaustive small-scope + random histories",
+        technique="reference-model (bounded std::vector) runtime monitor, exhaustive small-scope + random histories + ThreadSanitizer on concurrent independent use",
     ),
     "C08": dict(
         category="exploration", engine="strdrv",
@@ -134,31 +134,31 @@ CHECKS = {
              "operator<< ran) events per statement execution must be empty when the statement is below the compile-time "
              "minimum or rejected by the runtime filter, and exactly one per streamed callable/object, in stream order "
              "and before the formatter runs, when it is emitted; each program prints is_same<decltype(L::sev()), "
-             "null_stream> for all severities and the oracle compares with sev < minimum for all 6 minima.",
+             "null_stream> for all severities and the oracle compares with sev < minimum for all 6 minima. A concurrent phase (harness/mtindep.cpp) repeats a fixed job list from 2-16 threads on thread-private objects: results must equal the serial ones and ThreadSanitizer must stay silent (hidden shared state).",
         design_ref="DESIGN.md section 4, C10",
         note="The type-level half is decided only for the configurations that were compiled (6 minima x 6 severities "
              "x the generated logger types).",
-        technique="trace monitor over generated programs compiled per configuration",
+        technique="trace monitor over generated programs compiled per configuration + ThreadSanitizer on concurrent independent use",
     ),
     "C11": dict(
         category="exploration",
         text="Exhaustive over toggle declarations {letter?, reversible?, default none/0/1/3, env unbound/truthy/falsy} "
              "x all occurrence sequences up to length 3 (quick) / 4 (thorough) over {--t, -t, -tt, -tu, -ut, --no-t, "
              "--u, other option}, plus every documented env word, all case variants, near misses and random words, "
-             "judged against the reference model (count, provided, parsing_error).",
+             "judged against the reference model (count, provided, parsing_error). A concurrent phase (harness/mtindep.cpp) repeats a fixed job list from 2-16 threads on thread-private objects: results must equal the serial ones and ThreadSanitizer must stay silent (hidden shared state).",
         design_ref="DESIGN.md section 4, C11",
         note="Closed-world vocabulary claim is sampled outside the enumerated variants (200 / 3000 random words).",
-        technique="reference-model runtime monitor, exhaustive small-scope enumeration under ASan/UBSan",
+        technique="reference-model runtime monitor, exhaustive small-scope enumeration under ASan/UBSan + ThreadSanitizer on concurrent independent use",
     ),
     "C12": dict(
         category="exploration",
         text="Accepted counts {none,0,1,2,3,unlimited} x greedy x all vectors up to length 4 (quick) / 5 (thorough) "
              "over {value, empty, a=b, option=value, option awaiting value, toggle, --}, random vectors aimed at "
              "exactly limit / limit+1 positionals with hostile tokens behind `--`; positionals compared verbatim and "
-             "get(i)/operator[] probed for every i in [-n-1, n] on every accepted result.",
+             "get(i)/operator[] probed for every i in [-n-1, n] on every accepted result. A concurrent phase (harness/mtindep.cpp) repeats a fixed job list from 2-16 threads on thread-private objects: results must equal the serial ones and ThreadSanitizer must stay silent (hidden shared state).",
         design_ref="DESIGN.md section 4, C12",
         note="Bounded vector length; uses parse(argc, argv), the entry point a program has.",
-        technique="reference-model runtime monitor, exhaustive small-scope enumeration under ASan/UBSan",
+        technique="reference-model runtime monitor, exhaustive small-scope enumeration under ASan/UBSan + ThreadSanitizer on concurrent independent use",
     ),
     "C13": dict(
         category="exploration",
@@ -166,10 +166,10 @@ CHECKS = {
              "sequences up to 12 over a larger one) is judged by a model of the declaration table: ok + object "
              "identity or parser_error; the finished parser must refuse to parse iff two options share a letter and "
              "every declared name/letter, spelled once, must move exactly its own option. MOVE steps destroy the "
-             "moved-from parser so that ASan sees stale back-references.",
+             "moved-from parser so that ASan sees stale back-references. A concurrent phase (harness/mtindep.cpp) repeats a fixed job list from 2-16 threads on thread-private objects: results must equal the serial ones and ThreadSanitizer must stay silent (hidden shared state).",
         design_ref="DESIGN.md section 4, C13",
         note="Small name/letter alphabets (collisions are the point); addresses are compared only between two moves.",
-        technique="history monitor against a declaration-table model + AddressSanitizer",
+        technique="history monitor against a declaration-table model + AddressSanitizer + ThreadSanitizer on concurrent independent use",
     ),
     "C14": dict(
         category="exploration",
@@ -236,21 +236,21 @@ CHECKS = {
              "header-only wrapper; a refcount model decides for every dlclose whether it was due (no close while a "
              "dl object, symbol or copy is alive, exactly one close after the last, never dlclose(NULL)), "
              "dlopen(RTLD_NOLOAD) probes mapped state after every step, symbols are called after their dl object died, "
-             "failures must raise dl::exception carrying exactly the loader's dlerror text.",
+             "failures must raise dl::exception carrying exactly the loader's dlerror text. A concurrent phase (harness/mtindep.cpp) repeats a fixed job list from 2-16 threads on thread-private objects: results must equal the serial ones and ThreadSanitizer must stay silent (hidden shared state).",
         design_ref="DESIGN.md section 4, C19",
         note="Two tiny test libraries built by the check, a missing library and the program itself; histories of "
              "length 30 over 4+4 slots are sampled.",
-        technique="history monitor with linker-wrapped loader calls and a refcount model under ASan",
+        technique="history monitor with linker-wrapped loader calls and a refcount model under ASan + serial-vs-concurrent differential on concurrent independent use (no ThreadSanitizer: the loader's lock is invisible to it)",
     ),
     "C20": dict(
         category="exploration", engine="iteradapt",
         text="Full finite product {vector, list, deque, map, std::array, built-in array, initializer list, "
              "fixed_vector} x {lvalue, const, rvalue} x lengths 0..5 (thorough 0..64) x {enumerate, reverse}: exact "
              "(index, value) sequence, address identity of visited values for lvalue/const ranges, writes read back "
-             "from the container, temporaries iterated under ASan (use-after-scope).",
+             "from the container, temporaries iterated under ASan (use-after-scope). A concurrent phase (harness/mtindep.cpp) repeats a fixed job list from 2-16 threads on thread-private objects: results must equal the serial ones and ThreadSanitizer must stay silent (hidden shared state).",
         design_ref="DESIGN.md section 4, C20",
         note="Each container kind is its own case so a sanitizer report is attributed to the kind.",
-        technique="exhaustive small-scope enumeration (in-process monitor) under ASan/UBSan",
+        technique="exhaustive small-scope enumeration (in-process monitor) under ASan/UBSan + ThreadSanitizer on concurrent independent use",
     ),
 }
 
@@ -307,7 +307,9 @@ def main():
              "kind_free_text": "env/dl history driver with ld --wrap'ped loader calls"},
             {"name": "iteradapt", "path": "harness/iteradapt.cpp", "serves_properties": ["C20"],
              "kind_free_text": "enumerate/reverse over the container-kind x value-category x length product"},
-            {"name": "mtindep", "path": "harness/mtindep.cpp", "serves_properties": ["C08", "C14", "C15", "C16", "C17", "C18"],
+            {"name": "mtindep", "path": "harness/mtindep.cpp",
+             "serves_properties": ["C01", "C02", "C03", "C04", "C05", "C06", "C07", "C08", "C10", "C11", "C12", "C13", "C14",
+                                   "C15", "C16", "C17", "C18", "C19", "C20"],
              "kind_free_text": "concurrent independent use: threads work on their own objects; serial-vs-concurrent "
                                "differential oracle plus ThreadSanitizer (gcc, clang), ASan and plain builds"},
             {"name": "strdrv", "path": "harness/strdrv.cpp", "serves_properties": ["C08", "C17"],
